@@ -584,8 +584,201 @@ def main_c28(run):
                       extra={"exhaustive": True})
 
 
+# ---------------------------------------------------------------- C29
+def realize_values(rng, kind, kids):
+    """Python values for an abstract graph (None if it cannot be built)."""
+    import hy.models as M
+    n = len(kind)
+    vals = {}
+    flavour = {}
+    for v in range(1, n + 1):
+        k = kind[v - 1]
+        if k == "atom":
+            vals[v] = rng.choice([7, "s", None, True, 2.5, b"b", 3j, M.Keyword("k"), M.Symbol("sym"), -1, ""])
+        elif k == "bad":
+            vals[v] = (lambda: 0)
+        elif k == "container":
+            flavour[v] = rng.choice(["list", "dict", "list"])
+            vals[v] = [] if flavour[v] == "list" else {}
+    building = set()
+
+    def model(v):
+        if v in vals:
+            return vals[v]
+        if v in building:
+            raise ValueError("cycle of models")
+        building.add(v)
+        ch = [model(c) for c in kids[v - 1]]
+        building.discard(v)
+        vals[v] = rng.choice([M.List, M.Expression, M.Tuple])(ch) if ch else M.List()
+        return vals[v]
+    try:
+        for v in range(1, n + 1):
+            if kind[v - 1] == "model":
+                # a model holding unpromoted values cannot be *constructed* from a bad value: allowed, models
+                # may contain non-models
+                model(v)
+    except ValueError:
+        return None
+    for v in range(1, n + 1):
+        if kind[v - 1] == "container":
+            if flavour[v] == "list":
+                vals[v].extend(vals[c] for c in kids[v - 1])
+            else:
+                for i, c in enumerate(kids[v - 1]):
+                    vals[v][f"k{i}"] = vals[c]
+    return vals
+
+
+def py_equal(a, b):
+    import hy.models as M
+    if isinstance(a, float) and isinstance(b, float) and a != a and b != b:
+        return True
+    if type(a) in (list, tuple) and type(a) is type(b):
+        return len(a) == len(b) and all(py_equal(x, y) for x, y in zip(a, b))
+    if isinstance(a, dict) and isinstance(b, dict):
+        return a.keys() == b.keys() and all(py_equal(a[k], b[k]) for k in a)
+    return a == b and (type(a) is type(b) or isinstance(a, M.Object) or isinstance(b, M.Object))
+
+
+def random_value(rng, depth):
+    import hy.models as M
+    r = rng.random()
+    if depth <= 0 or r < 0.45:
+        return rng.choice([0, 1, -5, 2 ** 70, 1.5, -0.0, float("inf"), 2 + 3j, "", "a\"b\\c\n", "é", b"", b"\x00\xff", True,
+                           False, None, M.Keyword("kw"), M.Keyword(""), M.Symbol("x"), M.Integer(3), M.String("q", brackets="z")])
+    k = rng.choice(["list", "tuple", "dict", "set", "mlist", "mexpr"])
+    n = rng.randint(0, 3)
+    if k == "list":
+        return [random_value(rng, depth - 1) for _ in range(n)]
+    if k == "tuple":
+        return tuple(random_value(rng, depth - 1) for _ in range(n))
+    if k == "dict":
+        return {rng.choice(["a", "b", 1, 2, M.Keyword("z")]): random_value(rng, depth - 1) for _ in range(n)}
+    if k == "set":
+        return {rng.choice([1, 2, "a", "b", None, 2.5]) for _ in range(n)}
+    if k == "mlist":
+        return M.List([random_value(rng, depth - 1) for _ in range(n)])
+    return M.Expression([M.Symbol("quote"), M.List([random_value(rng, 0) for _ in range(n)])])
+
+
+def main_c29(run):
+    import hy
+    import hy.models as M
+    from hy.errors import HyWrapperError
+    rng = random.Random(run.seed)
+    q = run.quick
+    nv, nc = (3, 2)
+    r = tlc.run("HyAsModel", tlc.cfg(constants={"Vals": set(range(1, nv + 1)), "MaxCalls": nc, "RemoveOnRaise": True},
+                                     invariants=["SeenEmptyBetweenCalls", "OutcomeDependsOnValueOnly", "SeenIsStack", "Export"]),
+                run.work, workers=16, timeout=3400, heap="16g", label="asmodel")
+    if r.violated:
+        raise MachineryError(f"HyAsModel: {r.violated} violated on the specification")
+    run.add_tlc(r, f"HyAsModel exhaustive: all value graphs on {nv} values x histories of {nc} promotions")
+    r2 = tlc.run("HyAsModel", tlc.cfg(constants={"Vals": {1, 2}, "MaxCalls": 2, "RemoveOnRaise": False},
+                                      invariants=["SeenEmptyBetweenCalls"]), run.work, workers=8, label="neg")
+    if r2.violated != "SeenEmptyBetweenCalls":
+        raise MachineryError("negative control: without the finally SeenEmptyBetweenCalls must fail")
+    run.add_tlc(r2, "negative control: ids removed only on success violates SeenEmptyBetweenCalls")
+    hists = r.ex("HIST")
+    run.log(f"TLC: {r.distinct} states, {len(hists)} histories")
+    hists = rng.sample(hists, min(len(hists), 4000 if q else 80000))
+    # observe _seen at every nested promotion
+    orig = M.as_model
+    depth_bad = []
+
+    def spy(x):
+        try:
+            return orig(x)
+        finally:
+            pass
+    nrep = 0
+    for h in hists:
+        vals = realize_values(rng, h["kind"], h["kids"])
+        if vals is None:
+            continue
+        nrep += 1
+        key = json.dumps({"kind": h["kind"], "kids": h["kids"], "calls": h["calls"]})
+        for (v, want) in h["calls"]:
+            run.case(key + str(v))
+            try:
+                m = hy.as_model(vals[v])
+                got = "ok"
+            except HyWrapperError:
+                got = "error"
+            except RecursionError:
+                got = "recursion"
+            except Exception as e:
+                got = "raised " + type(e).__name__
+            if got != want:
+                run.violation("outcome:" + key, f"hy.as_model on value {v} of graph kind={h['kind']} kids={h['kids']} after "
+                              f"{h['calls']}: {got}, expected {want}", {"history": h})
+            if M._seen:
+                run.violation("seen:" + key, f"after hy.as_model ({got}) hy.models._seen is not empty", {"history": h})
+                M._seen.clear()
+            elif got == want:
+                run.cov["traces_validated_against_impl"] += 1
+            if got == "ok":
+                try:
+                    m2 = hy.as_model(m)
+                    if model_diff(m, m2):
+                        run.violation("idem:" + key, f"as_model is not idempotent: {model_diff(m, m2)}", {"history": h})
+                except Exception as e:
+                    run.violation("idem:" + key, f"as_model of its own output raised {e!r}", {"history": h})
+    run.cov["histories_replayed"] = nrep
+    # values: evaluating the promoted tree gives the value back
+    nval = 0
+    for _ in range(3000 if q else 200000):
+        v = random_value(rng, rng.choice([1, 2, 3]))
+        run.case(("value", repr(v)))
+        try:
+            m = hy.as_model(v)
+        except Exception as e:
+            run.violation("value:" + repr(v)[:200], f"hy.as_model({v!r}) raised {type(e).__name__}: {e}", {"value": repr(v)})
+            continue
+        if not isinstance(m, M.Object):
+            run.violation("value:" + repr(v)[:200], f"hy.as_model({v!r}) is not a model", {"value": repr(v)})
+            continue
+        m2 = hy.as_model(m)
+        if model_diff(m, m2):
+            run.violation("value:" + repr(v)[:200], f"as_model not idempotent on {v!r}: {model_diff(m, m2)}", {"value": repr(v)})
+        contains_model = "hy.models" in repr(v)
+        if not contains_model:
+            try:
+                back = hy.eval(m)
+            except Exception as e:
+                run.violation("value:" + repr(v)[:200], f"evaluating as_model({v!r}) raised {type(e).__name__}: {e}",
+                              {"value": repr(v)})
+                continue
+            if not py_equal(back, v):
+                run.violation("value:" + repr(v)[:200], f"hy.eval(hy.as_model({v!r})) = {back!r}", {"value": repr(v)})
+            else:
+                nval += 1
+                run.cov["traces_validated_against_impl"] += 1
+    run.cov["values_roundtripped"] = nval
+    # an error is followed by normal service
+    a = []
+    a.append(a)
+    for _ in range(3):
+        try:
+            hy.as_model(a)
+            run.violation("selfref", "a self-referential list was promoted", {})
+        except HyWrapperError:
+            pass
+        if hy.as_model([1, [2]]) != M.List([M.Integer(1), M.List([M.Integer(2)])]):
+            run.violation("after-error", "as_model misbehaves after a HyWrapperError", {})
+    run.sample({"history": hists[0]})
+    run.sample({"value": repr(random_value(random.Random(5), 2))})
+    return run.finish("model_checking",
+                      "HyAsModel: every value graph on 3 values (atoms, containers that may contain themselves, models, "
+                      "unpromotable objects) x every history of 2 promotions explored by TLC (SeenEmptyBetweenCalls, "
+                      "OutcomeDependsOnValueOnly); a sample of histories replayed on real lists/dicts/models/functions "
+                      "(outcome, _seen emptiness, idempotence) and random nested values round-tripped through hy.eval",
+                      extra={"exhaustive": True})
+
+
 def main(run):
-    return {"C25": main_c25, "C30": main_c30, "C31": main_c31, "C28": main_c28}[run.pid](run)
+    return {"C25": main_c25, "C30": main_c30, "C31": main_c31, "C28": main_c28, "C29": main_c29}[run.pid](run)
 
 
 def replay(run, path):
